@@ -51,6 +51,11 @@ pub struct Fields {
 }
 
 pub fn schema() -> (Schema, Fields) {
+    schema_with(|_| {})
+}
+
+/// the C04 schema plus whatever `extra` adds (C17 adds the sort field)
+pub fn schema_with(extra: impl FnOnce(&mut tantivy::schema::SchemaBuilder)) -> (Schema, Fields) {
     let mut sb = Schema::builder();
     let id = sb.add_u64_field("id", FAST | INDEXED | STORED);
     let grp = sb.add_u64_field("grp", FAST | INDEXED);
@@ -71,6 +76,7 @@ pub fn schema() -> (Schema, Fields) {
     let bytes = sb.add_bytes_field("bytes", BytesOptions::default().set_fast().set_indexed().set_stored());
     let facet = sb.add_facet_field("facet", FacetOptions::default().set_stored());
     let js = sb.add_json_field("js", JsonObjectOptions::from(TEXT | STORED).set_fast(None));
+    extra(&mut sb);
     (sb.build(), Fields { id, grp, title, body, freq, tag, num, score, flag, date, ip, bytes, facet, js })
 }
 
